@@ -231,11 +231,16 @@ func uniq(xs []string) []string {
 	return out
 }
 
-// expectedWalk is the documented walk on the abstract graph (files with unique
-// rule names): rules in order; a delegated file is entered only through a
-// matching rule and only once; a matching terminating rule with a delegated
-// file cuts the rest of its own file.
-func expectedWalk(c c06Case) []c06Consulted {
+// expectedWalk is the documented walk on the abstract graph: rules in order; a
+// delegated file is entered only through a matching rule and only once; a
+// matching terminating rule with a delegated file cuts the rest of its own
+// file. When a file can be reached a second time (duplicate rule names, self
+// delegation - shapes that cannot be loaded from a repository) the statement
+// does not say whether a terminating rule whose file was already entered still
+// cuts; cutAlways selects the reading. With unique names and no cycle both
+// readings coincide. set(cutAlways=true) is always a subset of
+// set(cutAlways=false).
+func expectedWalk(c c06Case, cutAlways bool) []c06Consulted {
 	byName := map[string]c06File{}
 	for _, f := range c.Files {
 		byName[f.Name] = f
@@ -250,20 +255,37 @@ func expectedWalk(c c06Case) []c06Consulted {
 			}
 			out = append(out, f.describe(r))
 			sub, has := byName[r.Name]
-			if !has || r.Name == "targets" {
+			if !has {
 				continue
 			}
 			if !entered[r.Name] {
 				entered[r.Name] = true
 				walk(sub)
-			}
-			if r.Term {
+				if r.Term {
+					return
+				}
+			} else if r.Term && cutAlways {
 				return
 			}
 		}
 	}
 	walk(byName["targets"])
 	return out
+}
+
+// subMultiset reports whether sorted a is a sub-multiset of sorted b.
+func subMultiset(a, b []string) bool {
+	j := 0
+	for _, x := range a {
+		for j < len(b) && b[j] < x {
+			j++
+		}
+		if j >= len(b) || b[j] != x {
+			return false
+		}
+		j++
+	}
+	return true
 }
 
 func hasDuplicateNames(c c06Case) bool {
@@ -368,18 +390,18 @@ func runC06(s *kit.Session, c c06Case) *kit.Failure {
 			}
 		}
 	}
-	want := expectedWalk(c)
+	want := expectedWalk(c, false)
+	wantMin := expectedWalk(c, true)
 	anyMatch = len(want) > 0
-	if !dup {
-		ws, gs := sortedConsulted(want), sortedConsulted(got)
-		if fmt.Sprint(ws) != fmt.Sprint(gs) {
-			return &kit.Failure{Cause: "wrong-rules", Msg: fmt.Sprintf("path %s: consulted rules differ from the documented walk\n want %v\n  got %v", c.Path, ws, gs)}
+	{
+		// every rule of the narrow reading must be consulted, nothing outside the
+		// wide reading may be (the two coincide for loadable, acyclic policies);
+		// compared as multisets
+		ws, wm, gs := sortedConsulted(want), sortedConsulted(wantMin), sortedConsulted(got)
+		if !subMultiset(wm, gs) || !subMultiset(gs, ws) {
+			return &kit.Failure{Cause: "wrong-rules", Msg: fmt.Sprintf("path %s: consulted rules differ from the documented walk\n want at least %v\n want at most  %v\n  got %v", c.Path, wm, ws, gs)}
 		}
-	} else {
-		// cyclic / diamond graphs cannot be loaded from a repository (duplicate
-		// rule names are rejected on load); the property demands termination and
-		// that nothing but matching rules is consulted.
-		for _, g := range sortedConsulted(got) {
+		for _, g := range gs {
 			if !allRules[g] {
 				return &kit.Failure{Cause: "wrong-rules", Msg: fmt.Sprintf("path %s: consulted %s which is not a matching rule of any file (with its own principals)", c.Path, g)}
 			}
@@ -432,6 +454,44 @@ func runC06(s *kit.Session, c c06Case) *kit.Failure {
 	return nil
 }
 
+
+// c06EnumCase maps an index to a delegation graph of two rule files (targets,
+// f1) with 0..2 rules each; every rule is name x pattern x terminating flag.
+// Single principal per file, threshold 1 (principal resolution is the rapid
+// campaign's business).
+func c06EnumCase(names, pats, paths []string, i int) (c06Case, bool) {
+	nopt := len(names) * len(pats) * 2
+	perFile := 1 + nopt + nopt*nopt
+	total := perFile * perFile * len(paths)
+	if i >= total {
+		return c06Case{}, false
+	}
+	c := c06Case{Path: paths[i%len(paths)]}
+	i /= len(paths)
+	mk := func(fname string, key int, code int) c06File {
+		f := c06File{Name: fname, Prins: []c06Prin{{Keys: []int{key}}}}
+		var opts []int
+		switch {
+		case code == 0:
+		case code <= nopt:
+			opts = []int{code - 1}
+		default:
+			code -= 1 + nopt
+			opts = []int{code / nopt, code % nopt}
+		}
+		for _, o := range opts {
+			r := c06Rule{Term: o%2 == 1, Prins: []int{0}, Threshold: 1}
+			o /= 2
+			r.Patterns = []string{pats[o%len(pats)]}
+			r.Name = names[o/len(pats)]
+			f.Rules = append(f.Rules, r)
+		}
+		return f
+	}
+	c.Files = []c06File{mk("targets", 0, i%perFile), mk("f1", 1, i/perFile)}
+	return c, true
+}
+
 func TestC06(t *testing.T) {
 	s := kit.Open(t, "C06")
 	run := func(c c06Case) *kit.Failure { return runC06(s, c) }
@@ -439,6 +499,16 @@ func TestC06(t *testing.T) {
 		kit.DoReplay(s, t, rf, run)
 		return
 	}
-	s.SetRule("rapid: delegation graphs of 1-4 rule files x 0-3 rules (+allow rule), rule names drawn from file names (=> delegation) and plain names, unique (loadable) or duplicated (cycles / diamonds), patterns from {literal, prefix-glob, catch-all} x {git:, file:}, random terminating flags, v0.1 (migrated) and v0.2 files, key and person principals whose ids may collide across files with different keys; paths from an 8-element covering set. Oracle: recursive walk on the abstract graph, compared as a set of (rule name, threshold, principal ids with the key ids the rule's own file defines); empty <=> unprotected; repeated query equal; 5s watchdog. Non-trivial: >=2 files reached, or a matching terminating rule with a delegated file, or duplicate names")
+	s.SetRule("rapid: delegation graphs of 1-4 rule files x 0-3 rules (+allow rule), rule names drawn from file names (=> delegation) and plain names, unique (loadable) or duplicated (cycles / diamonds), patterns from {literal, prefix-glob, catch-all} x {git:, file:}, random terminating flags, v0.1 (migrated) and v0.2 files, key and person principals whose ids may collide across files with different keys; paths from an 8-element covering set. Oracle: recursive walk on the abstract graph, compared as a multiset (exact for loadable acyclic graphs; for graphs in which a file can be reached twice: at least the walk in which an already entered terminating rule cuts, at most the walk in which it does not) of (rule name, threshold, principal ids with the key ids the rule's own file defines); empty <=> unprotected; repeated query equal; 5s watchdog. Non-trivial: >=2 files reached, or a matching terminating rule with a delegated file, or duplicate names")
 	kit.Campaign(s, t, "walk", "walk", s.Budget(150_000, 4_000_000), genC06, run)
+	// bounded-exhaustive: every graph of two rule files with <=2 rules each
+	names, pats := []string{"f1", "r1"}, []string{"git:refs/heads/main", "git:refs/heads/*", "file:*"}
+	paths := []string{"git:refs/heads/main", "git:refs/heads/dev", "file:src/a", "other:zzz"}
+	if s.Thorough() {
+		names = []string{"f1", "r1", "r2", "targets"}
+		pats = []string{"git:refs/heads/main", "git:refs/heads/*", "git:*", "file:src/*", "*"}
+	}
+	ok := kit.Enumerate(s, t, "enum", "walk", func(i int) (c06Case, bool) { return c06EnumCase(names, pats, paths, i) }, run)
+	s.SetExhaustive(ok)
+	s.SetExtra("enumeration_bound", fmt.Sprintf("every delegation graph over the rule files {targets, f1} with 0..2 rules each, rule = name in %v x pattern in %v x terminating flag (self delegation, delegation back to targets and duplicate names included), x paths %v", names, pats, paths))
 }
